@@ -115,6 +115,31 @@ def h_const(txt_mod, consts, txt_inl, N, mode, f, unit=None, period=None):
     return body
 
 
+def h_const_ct(txt_mod, consts, txt_inl, vs, ns, mode, parts=None):
+    """dense time: declared constants (as values, referenced once or several times) against the text with the literals written in; online
+    also fed in several update() calls on a concrete grid"""
+    def body(env):
+        A = env.A
+        sm = ct.make_spec(mode, txt_mod, vs, consts=[tuple(c) for c in consts])
+        si = ct.make_spec(mode, txt_inl, vs)
+        sigs = {v: ct.signal(env, v, n, 'zero', grid=(list(range(n)) if parts else None)) for v, n in zip(vs, ns)}
+        if mode == 'offline':
+            om, oi = sm.evaluate(*[[v, [list(p) for p in sigs[v]]] for v in vs]), si.evaluate(*[[v, [list(p) for p in sigs[v]]] for v in vs])
+        else:
+            om, oi = [], []
+            for part in (parts or [list(range(max(ns)))]):
+                om += sm.update(*[[v, [list(sigs[v][i]) for i in part if i < len(sigs[v])]] for v in vs])
+                oi += si.update(*[[v, [list(sigs[v][i]) for i in part if i < len(sigs[v])]] for v in vs])
+        om, oi = [list(p) for p in om], [list(p) for p in oi]
+        env.observe('modular', om)
+        res = ct.wellformed(A, om, 'modular') + [('same-length', A.bool(len(om) == len(oi)))]
+        if len(om) == len(oi):
+            for i in range(len(om)):
+                res.append(('inlined@%d' % i, A.And(A.eq(om[i][0], oi[i][0]), A.eq(om[i][1], oi[i][1]))))
+        return res
+    return body
+
+
 def h_ct(defs, main, ns, mode, style):
     defs_list = [(n, T(d)) for n, d in defs]
     main = T(main)
@@ -218,6 +243,16 @@ def obligations(tier, rng):
                 for style in ('sub', 'multi'):
                     out.append(ob('C09', 'dt', 'dt/%s/%s/alias/p=%s/q=%s/out=%s' % (mode, style, text(d1), text(d2), text(m)), defs=[['p', d1], ['q', d2]], main=m, N=N,
                                   mode=mode, style=style))
+    # ... and the renamed sub-specification is ALSO used by another (earlier or later) assertion: q refers to p, the main assertion is p itself
+    for d1 in [('geq', X, C15), ('once_t', X, 0, 1), ('since', X, Y), ('prev', X)]:
+        for d2 in [('always', ('and', P, ('geq', Y, ('const', 0.0)))), ('historically', ('or', P, Y)), ('once_t', P, 0, 2), ('and', P, ('prev', P))]:
+            fut = refsem.has_future(d2)
+            for mode in (['offline'] if fut else ['offline', 'online']):
+                for style in ('sub', 'multi'):
+                    if quick and style == 'sub' and d1[0] != 'geq':
+                        continue
+                    out.append(ob('C09', 'dt', 'dt/%s/%s/alias-of-used/p=%s/q=%s/out=p' % (mode, style, text(d1), text(d2)), defs=[['p', d1], ['q', d2]], main=P, N=N,
+                                  mode=mode, style=style))
     # constants as operands and as bounds
     const_cases = [
         ('out = (x) >= (c)', [['c', 'float', '1.5']], 'out = (x) >= (1.5)', ('geq', X, C15)),
@@ -255,6 +290,14 @@ def obligations(tier, rng):
             for mode in ['offline'] + (['pastified'] if refsem.has_future(f) else ['online']):
                 out.append(ob('C09', 'const', 'const-frac/%s/unit=%s/P=%d%s/%s' % (mode, unit, per[0], per[1], tm), txt_mod=tm, consts=cs, txt_inl=ti, N=N, mode=mode, f=f,
                               unit=unit, period=list(per)))
+    # dense time: constants as values, one of them referenced several times, also through a sub-specification
+    for tm, cs, ti, vs_ in [('out = ((x) >= (c)) and ((y) <= (c))', [['c', 'float', '1.5']], 'out = ((x) >= (1.5)) and ((y) <= (1.5))', ['x', 'y']),
+                            ('out = once[0,1]((x) + (c)) >= (c)', [['c', 'float', '1.5']], 'out = once[0,1]((x) + (1.5)) >= (1.5)', ['x']),
+                            ('p = (x) - (c);\nout = (p >= c) or (once(p) <= d)', [['c', 'float', '1.5'], ['d', 'int', '2']], 'p = (x) - (1.5);\nout = (p >= 1.5) or (once(p) <= 2)', ['x', 'p']),
+                            ('out = (x) * (c) >= (d) - (c)', [['c', 'float', '0.5'], ['d', 'float', '2.5']], 'out = (x) * (0.5) >= (2.5) - (0.5)', ['x'])]:
+        for mode, parts in [('offline', None), ('online', None), ('online', [[0, 1], [2]]), ('online', [[0], [1], [2]])]:
+            out.append(ob('C09', 'const_ct', 'const-ct/%s/%s/%s' % (mode, parts, tm.replace('\n', ' ')), txt_mod=tm, consts=cs, txt_inl=ti, vs=vs_, ns=[3] * len(vs_), mode=mode, parts=parts,
+                          max_paths=40000, wall=600))
     # dense time
     ddefs = [('once_t', X, 0, 1), ('once', X), ('not', X), ('since', X, Y), ('geq', X, C15), ('historically_t', X, 1, 2)]
     dmains = [('not', P), ('or', P, ('once', P)), ('once', P), ('and', P, P), ('historically', ('not', P))]
